@@ -376,6 +376,23 @@ func resolveReferences(registry *RDFRegistry, ctx *ParsingContext) error {
 			}
 		}
 	}
+	// The rdf:langString node marks the properties that have a natural
+	// language map when it is applied, which happens only the first time
+	// the value is brought in. A later specification finds the value
+	// already present: mark its properties here.
+	for k, p := range vocabulary.Vocab.Properties {
+		for _, ref := range p.Range {
+			if ref.Name != langstringSpec || len(ref.Vocab) == 0 {
+				continue
+			}
+			if url, err := registry.ResolveAlias(ref.Vocab); err != nil || url != rdfSpec {
+				continue
+			}
+			p.NaturalLanguageMap = true
+			vocabulary.Vocab.Properties[k] = p
+			break
+		}
+	}
 	return nil
 }
 
